@@ -82,6 +82,9 @@ mod types;
 #[cfg(litep2p_verif)]
 #[path = "../../../verif/c17.rs"]
 pub(crate) mod verif_c17;
+#[cfg(litep2p_verif)]
+#[path = "../../../verif/c19_kad.rs"]
+pub(crate) mod verif_c19;
 
 mod schema {
     pub(super) mod kademlia {
